@@ -2712,8 +2712,8 @@ fn render_table_row_vert<T: Write, D: TextDecorator>(
         children: row.into_cells(true),
         cons: Box::new(|builders, children| {
             let children: Vec<_> = children.into_iter().map(Option::unwrap).collect();
-            // As for rows laid out side by side: a row without any content is not drawn.
-            if children.iter().any(|c| !c.empty()) {
+            // A row none of whose cells got any width is not drawn.
+            if !children.is_empty() {
                 builders.append_vert_row(children)?;
             }
             pushed_style.unwind(builders);
